@@ -13,6 +13,7 @@ import (
 )
 
 type SolveResult struct {
+	Retried bool
 	Obl     *Obl
 	Status  string // proved failed unknown cover-ok cover-vacuous cover-unknown
 	Solver  string
@@ -38,6 +39,11 @@ var solvers = []solverSpec{
 	// callees when old and new arrays coincide) that drown the default thresholds
 	{"z3-new-shallow", func(f string, t int) []string {
 		return []string{"z3-new", "smt.mbqi=false", "auto_config=false", "smt.qi.eager_threshold=4", "smt.qi.lazy_threshold=6", fmt.Sprintf("-T:%d", t), f}
+	}},
+	// no relevancy filtering: ground terms under an irrelevant ite branch still trigger
+	// instantiation (needed e.g. for "score(p) >= threshold" where score is ite(scorer == nil, 0, ...))
+	{"z3-new-norel", func(f string, t int) []string {
+		return []string{"z3-new", "smt.mbqi=false", "auto_config=false", "smt.relevancy=0", fmt.Sprintf("-T:%d", t), f}
 	}},
 	{"z3-new-s1", func(f string, t int) []string {
 		return []string{"z3-new", "smt.mbqi=false", "auto_config=false", "smt.random_seed=1", "sat.random_seed=1", fmt.Sprintf("-T:%d", t), f}
@@ -88,6 +94,7 @@ func runSolver(ctx context.Context, s solverSpec, file string, timeoutS int) (st
 }
 
 type solveOpts struct {
+	noRetry map[string]bool // obligations recorded as open findings: known to fail, not worth a second try
 	timeoutS  int
 	workers   int
 	crossCheck bool
@@ -110,6 +117,35 @@ func solveAll(fr *FuncResult, opts solveOpts) []*SolveResult {
 		}(i, o)
 	}
 	wg.Wait()
+	// second chance: an obligation that nobody decided within the budget is retried with three
+	// times the budget and little parallelism, so that machine load cannot turn a proof that
+	// normally takes a second or two into an alarm
+	var retry []int
+	for i, r := range results {
+		if r != nil && !r.Obl.Cover && r.Status == "unknown" && !opts.noRetry[r.Obl.Name] {
+			retry = append(retry, i)
+		}
+	}
+	if len(retry) > 0 && len(retry) <= 40 {
+		o2 := opts
+		o2.timeoutS = opts.timeoutS * 3
+		sem2 := make(chan struct{}, 3)
+		var wg2 sync.WaitGroup
+		for _, i := range retry {
+			wg2.Add(1)
+			sem2 <- struct{}{}
+			go func(i int) {
+				defer wg2.Done()
+				defer func() { <-sem2 }()
+				first := results[i]
+				r := solveOne(fr.Enc, fr.Obls[i], o2, i)
+				r.Seconds += first.Seconds
+				r.Retried = true
+				results[i] = r
+			}(i)
+		}
+		wg2.Wait()
+	}
 	return results
 }
 
@@ -178,7 +214,7 @@ func solveOne(e *Enc, o *Obl, opts solveOpts, idx int) *SolveResult {
 		}
 	}
 	// stage 1: the two z3-new configurations (E-matching only / default) with a short budget
-	race(solvers[:3], quick)
+	race(solvers[:4], quick)
 	if res.Solver == "" {
 		// stage 2: everything with the full budget
 		race(solvers, opts.timeoutS)
